@@ -5,6 +5,7 @@ import (
 	"go/ast"
 	"go/token"
 	"go/types"
+	"golang.org/x/tools/go/ssa"
 	"sort"
 	"strings"
 
@@ -969,9 +970,17 @@ var droppedErrorExceptions = map[string]string{
 func (c *Ctx) ruleNoDroppedError(rule string) { c.ruleNoDroppedErrorOpt(rule, true) }
 
 func (c *Ctx) ruleNoDroppedErrorOpt(rule string, useExceptions bool) {
+	c.ruleNoDroppedErrorRoots(rule, useExceptions, nil, 3)
+}
+
+// ruleNoDroppedErrorRoots: roots nil = the build entry points; otherwise the given root functions (e.g. the export).
+func (c *Ctx) ruleNoDroppedErrorRoots(rule string, useExceptions bool, roots []*ssa.Function, floor int) {
 	r := c.R
-	r.Rule(rule, "in functions reachable from the build entry points no call that returns an error-like value has that result discarded (expression statement, `_ =`, or `_` in a tuple), except iterator calls whose closure returns nil on every path and named exceptions", 3)
-	reach := reachDecls(c.reachableLib(c.ssaRoots(buildRoots...), nil))
+	r.Rule(rule, "in functions reachable from the entry points of this property (build, or the serialisers and the OpenAPI export) no call that returns an error-like value has that result discarded (expression statement, `_ =`, or `_` in a tuple), except iterator calls whose closure returns nil on every path and named exceptions", floor)
+	if roots == nil {
+		roots = c.ssaRoots(buildRoots...)
+	}
+	reach := reachDecls(c.reachableLib(roots, nil))
 	n := 0
 	for _, f := range c.libFns() {
 		if !reach[f.Obj] {
